@@ -428,6 +428,12 @@ def do_replay(pid, path, ctx, props, impl, tables):
         return 0
     out = impl.eval_guarded(line, dict(extra))
     mo = impl.canon_model(core.run_driver([line])[0], tables)
+    if line.startswith("conc "):
+        # a race need not recur at the first attempt: repeat the concurrent run until it does
+        for _ in range(40):
+            if mo != out:
+                break
+            out = impl.eval_guarded(line, dict(extra))
     print("impl : " + out[:500])
     print("model: " + mo[:500])
     bad = mo != out
